@@ -84,7 +84,8 @@ Proof.
   - rewrite stream_cons in *. cbn [fst snd] in *. destruct f; [lia|].
     rewrite hrc_step by exact W. rewrite IH.
     + reflexivity.
-    + rewrite !app_length in Hf. destruct (hdr_facts _ _ _ W) as (Hl & _). lia.
+    + rewrite !app_length in Hf. destruct (hdr_facts _ _ _ W) as (Hl & _).
+      pose proof (hdr_len_pos dtls). unfold blen in Hl. lia.
 Qed.
 
 (* a strict prefix of the stream: the fragments of a proper prefix of the record list, then return *)
@@ -96,11 +97,13 @@ Proof.
   induction 1 as [|[h p] recs W _ IH]; intros q t f Ht E Hf.
   - cbn in E. destruct q; destruct t; try discriminate. congruence.
   - rewrite stream_cons in E. cbn [fst snd] in E. destruct f; [lia|].
+    destruct (hdr_facts _ _ _ W) as (Hl & _ & _ & Hp). pose proof (hdr_len_pos dtls) as Hpos.
+    unfold blen in Hl, Hp.
     rewrite app_assoc in E.
     destruct (app_eq_app _ _ _ _ E) as [l [[Eq Ep] | [Eh Et]]].
     + (* q = (h ++ p) ++ l : first record complete *)
       subst q. destruct (IH l t f Ht (eq_sym Ep)) as (r1 & rc & r2 & -> & Hh).
-      { rewrite app_length in Hf. lia. }
+      { rewrite !app_length in Hf. lia. }
       exists ((h, p) :: r1), rc, r2. split; [reflexivity|].
       rewrite <- app_assoc. rewrite hrc_step by exact W. rewrite Hh. reflexivity.
     + (* h ++ p = q ++ l *)
@@ -108,7 +111,7 @@ Proof.
       * rewrite app_nil_r in Eh. cbn [app] in Et. subst t.
         (* q = h ++ p exactly, and the rest is a non-empty stream: treat as complete record with l = [] *)
         subst q. destruct (IH [] (stream recs) f Ht eq_refl) as (r1 & rc & r2 & -> & Hh).
-        { cbn. lia. }
+        { rewrite !app_length in Hf. cbn. lia. }
         exists ((h, p) :: r1), rc, r2. split; [reflexivity|].
         rewrite <- (app_nil_r (h ++ p)), <- app_assoc. rewrite hrc_step by exact W. rewrite Hh. reflexivity.
       * exists [], (h, p), recs. split; [reflexivity|].
@@ -149,7 +152,7 @@ Proof.
   - reflexivity.
   - cbn [concat] in E. rewrite app_assoc in E. cbn [gch_loop].
     assert (L : blen (acc ++ d) < blen msg).
-    { rewrite <- E, !(blen_app ((acc ++ d))), blen_app. destruct t; [congruence|]. rewrite blen_cons. lia. }
+    { rewrite <- E, !blen_app. destruct t; [congruence|]. rewrite blen_cons. lia. }
     destruct (hs_min dtls <=? blen (acc ++ d)) eqn:E1.
     + rewrite (Hsz (acc ++ d) (concat tl ++ t)) by (try lia; rewrite <- E, <- !app_assoc; reflexivity).
       destruct (blen msg <=? blen (acc ++ d)) eqn:E2; [lia|].
@@ -235,7 +238,7 @@ Proof.
   specialize (IH L').
   destruct (snd (hrc dtls f (drop size d'))) eqn:Es.
   - destruct IH as (l' & e' & ->). cbn [fst snd]. eexists l', e'. reflexivity.
-  - rewrite IH. reflexivity.
+  - rewrite IH. rewrite ?Es. reflexivity.
   - exact I.
 Qed.
 
